@@ -356,6 +356,8 @@ fn net_strategy() -> BoxedStrategy<Net> {
         1 => Just(Net::NoAddr),
         2 => (0u8..3).prop_map(Net::V6MappedHot),
         2 => Just(Net::V6Loopback),
+        3 => (0u8..3).prop_map(Net::HotNoUdp),
+        4 => Just(Net::Loopback4),
     ]
     .boxed()
 }
@@ -673,7 +675,7 @@ impl Property for C16 {
         run_case(case)
     }
     fn rule() -> String {
-        "histories (<=150 quick / <=250 thorough ops; bulk fills expanded) of the filter-respecting table API (insert_or_update, update_node, update_node_status, remove, iter, entry lookup, closest_keys, nodes_by_distances, forced pending expiry) on KBucketsTable<NodeId, Enr> built with the crate's own IpTableFilter/IpBucketFilter; keys are real key hashes from a deterministic pool of 2048 keys in buckets 250..255; records are signed and drawn from 3 hot /24 subnets, 8 filler subnets, IPv6-only (ordinary, IPv4-mapped into a hot subnet, ::1) and address-less shapes, with seq 1..3 so that updates move nodes between subnets. By-construction fragments: the record of a waiting (pending) node is updated into a subnet at the table limit; a waiting node of a subnet is reported disconnected, the subnet is then filled up in other buckets and the node's time-out elapses; a subnet at the table limit includes the disconnected front node of a full bucket, a newcomer of that subnet is offered to that bucket, another node leaves it and the time-out elapses. After every elementary op: per /24 <=2 stored nodes per bucket and <=10 in the table; a record without IPv4 is never refused by a filter. One case in 24 goes through the public API: a real service (IPv4 / IPv6 / dual stack) configured with ip_limit behind a scripted handler gets session reports, disconnects, add_enr calls and NODES answers with records from the hot and filler subnets (plus a by-construction scenario: a /24 at the table limit, a full bucket with a waiting node, and a newer record of the waiting node moved into that /24 learnt from a NODES answer); after every step a clone of its table (Discv5::kbuckets) must respect the limits, also after every waiting node has been promoted in the clone. Non-trivial = some subnet reached 9 table entries or 2 entries in a full bucket and a later op carried a record with an IPv4 address.".into()
+        "histories (<=150 quick / <=250 thorough ops; bulk fills expanded) of the filter-respecting table API (insert_or_update, update_node, update_node_status, remove, iter, entry lookup, closest_keys, nodes_by_distances, forced pending expiry) on KBucketsTable<NodeId, Enr> built with the crate's own IpTableFilter/IpBucketFilter; keys are real key hashes from a deterministic pool of 2048 keys in buckets 250..255; records are signed and drawn from 3 hot /24 subnets (also without a UDP port: ip4 + tcp4 only), an IPv4 loopback /24, 8 filler subnets, IPv6-only (ordinary, IPv4-mapped into a hot subnet, ::1) and address-less shapes, with seq 1..3 so that updates move nodes between subnets. By-construction fragments: the record of a waiting (pending) node is updated into a subnet at the table limit; a waiting node of a subnet is reported disconnected, the subnet is then filled up in other buckets and the node's time-out elapses; a subnet at the table limit includes the disconnected front node of a full bucket, a newcomer of that subnet is offered to that bucket, another node leaves it and the time-out elapses. After every elementary op: per /24 <=2 stored nodes per bucket and <=10 in the table; a record without IPv4 is never refused by a filter. One case in 24 goes through the public API: a real service (IPv4 / IPv6 / dual stack) configured with ip_limit behind a scripted handler gets session reports, disconnects, add_enr calls and NODES answers with records from the hot and filler subnets (plus a by-construction scenario: a /24 at the table limit, a full bucket with a waiting node, and a newer record of the waiting node moved into that /24 learnt from a NODES answer); after every step a clone of its table (Discv5::kbuckets) must respect the limits, also after every waiting node has been promoted in the clone. Non-trivial = some subnet reached 9 table entries or 2 entries in a full bucket and a later op carried a record with an IPv4 address.".into()
     }
     fn assumptions() -> Vec<String> {
         vec![
